@@ -34,7 +34,7 @@ OUT = os.environ.get("VERIF_OUT_DIR") or VERIF
 
 
 class Result:
-    __slots__ = ("failures", "nontrivial", "classes", "evaluations", "excluded")
+    __slots__ = ("failures", "nontrivial", "classes", "evaluations", "excluded", "nt_units")
 
     def __init__(self):
         self.failures = []  # list of (signature, detail)
@@ -42,6 +42,7 @@ class Result:
         self.classes = []
         self.evaluations = 1
         self.excluded = 0
+        self.nt_units = 0  # non-trivial units inside this case (crash points, fault schedules, reader passes)
 
     def fail(self, sig, detail=""):
         self.failures.append((sig, str(detail)[:2000]))
@@ -89,6 +90,7 @@ class Campaign:
         self.extra_cov = {}
         self.nontrivial_extra = 0  # distinct-by-construction enumerated cases
         self.pbt_cases = 0  # cases that went through record() (floors are judged on these)
+        self.unit_cases = set()
         self.t0 = time.time()
 
     # -- recording -----------------------------------------------------
@@ -99,6 +101,12 @@ class Campaign:
         self.excluded += res.excluded
         for c in res.classes:
             self.classes[c] = self.classes.get(c, 0) + 1
+        if res.nt_units:
+            dg0 = digest(case)
+            if dg0 not in self.unit_cases:
+                # units of one case are distinct by construction; a case seen twice is counted once
+                self.unit_cases.add(dg0)
+                self.nontrivial_extra += int(res.nt_units)
         if res.nontrivial:
             dg = digest(case)
             if dg not in self.nontrivial:
